@@ -140,7 +140,7 @@ pub static C16: PropSpec = PropSpec {
     id: "C16",
     simulator: "A-sim (reader facade)",
     level: "exploration",
-    runs: |t| if t == Tier::Thorough { 2_000_000 } else { 150_000 },
+    runs: |t| if t == Tier::Thorough { 30_000_000 } else { 150_000 },
     enumerated: |_| 0,
     run,
     rule: "running configurations of 0-6 (thorough: 0-12) statements from a grammar: annotation absent / bgpfu-fltr with a parseable expression (12 shapes incl. AS-path regex, PeerAS, literal sets, XML-escaped characters) / unparseable / other text / near-miss prefixes (no space, upper case, leading garbage, padded); decoration /* c */, none, /*c*/, padded; jcmd:active absent / true / false; four attribute orders incl. unrelated attributes and Junos's duplicate xmlns:jcmd; names with XML metacharacters, quotes, non-ASCII; bodies: then reject, nothing, terms, then accept, reject plus another action. Oracle: reader's (name, expression) set == independent selection; a reply containing an annotated active statement of other content may be rejected as a whole. Non-trivial = the selection is non-empty; distinct = distinct event-log hash (the document)",
